@@ -41,12 +41,18 @@ func runTimerTrial(id int, seed int64, durMs int) *timerTrial {
 	tr := &timerTrial{id: id}
 	nops := 1 + rnd.Intn(5)
 	armed := false
+	long := false // the timer armed last is a long one: it must not deliver within the observation window
 	for i := 0; i < nops; i++ {
 		switch rnd.Intn(5) {
 		case 0, 1:
-			conn.VerifArmTimer(uint(rnd.Intn(3)), durMs)
+			d := durMs
+			long = rnd.Intn(5) < 2
+			if long {
+				d = durMs * 200
+			}
+			conn.VerifArmTimer(uint(rnd.Intn(3)), d)
 			armed = true
-			tr.ops = append(tr.ops, fmt.Sprintf("arm(%d)", durMs))
+			tr.ops = append(tr.ops, fmt.Sprintf("arm(%d)", d))
 		case 2, 3:
 			conn.VerifStopTimer()
 			armed = false
@@ -57,7 +63,7 @@ func runTimerTrial(id int, seed int64, durMs int) *timerTrial {
 			tr.ops = append(tr.ops, fmt.Sprintf("sleep(%s)", d))
 		}
 	}
-	if armed {
+	if armed && !long {
 		tr.expected = 1
 	}
 	time.Sleep(time.Duration(durMs)*time.Millisecond*2 + 30*time.Millisecond)
@@ -78,6 +84,13 @@ func runTimerTrial(id int, seed int64, durMs int) *timerTrial {
 			obs = append(obs, r.take()...)
 		}
 		time.Sleep(5 * time.Millisecond)
+		obs = append(obs, r.take()...)
+	}
+	if armed && long {
+		// the long timer is the current one and has not expired: stop it, nothing may be delivered afterwards either
+		conn.VerifStopTimer()
+		tr.ops = append(tr.ops, "stop")
+		time.Sleep(time.Duration(durMs)*time.Millisecond + 10*time.Millisecond)
 		obs = append(obs, r.take()...)
 	}
 	tr.delivered = count(obs)
